@@ -10,7 +10,10 @@ BASELINE_OFF = ("cd /repo && /venv/bin/python -m pytest -ra -q -p no:cacheprovid
 LEVEL_TEXT = (
     "Runtime monitoring: the real osyris code is executed on generated and hand-enumerated hostile inputs "
     "while an oracle written for this property observes every execution.  'Held' means held on the executions "
-    "counted in the evidence file (evaluations / distinct_nontrivial / monitor_evaluations), nothing more."
+    "counted in the evidence file (evaluations / distinct_nontrivial / monitor_evaluations), nothing more.  "
+    "Mechanism checkpoints (sys.monitoring line events on the osyris sources) are mandatory: a run that never "
+    "executed one of the property's mechanisms, or whose deciding monitor was evaluated zero times, is "
+    "inconclusive (exit 2), not held."
 )
 
 # property -> (technique, design_ref, level_note, extra sentence for the level text)
@@ -18,19 +21,21 @@ CHECKS = {
     "C03": ("brute-force point-location oracle at origin + x_i*u + y_j*v (basis and kernel arguments captured by "
             "wrapping module attributes of the real map()), cells carry unique tags; schedule exploration of the "
             "parallel kernel (threads x chunk sizes x threading layers x CPU affinity) against a bounds-checked "
-            "sequential rebuild of the same source; shadow-memory iteration-conflict monitor",
-            "DESIGN.md 3.4, 3.5, 4/C03",
+            "sequential rebuild of the same source; shadow-memory iteration-conflict monitor; emulated parallel runtime "
+            "(prange iterations on Python threads with yield injection at shared-array accesses)",
+            "DESIGN.md 3.4, 3.5, 4/C03, 9.4b",
             "face tolerance 1e-9 of the cell size (face pixels may show any touching cell); finite cell values; "
             "schedules are sampled, not enumerated"),
     "C05": ("exact binning model in extended precision on the grid observed at the kernel boundary (edge points "
             "within 16 ulp not judged), conservation of totals; schedule sweep of the kernel on maximal-sharing "
-            "inputs with integer weights, bounds-checked sequential rebuild, iteration-conflict monitor",
-            "DESIGN.md 3.5, 4/C05",
+            "inputs with integer weights, bounds-checked sequential rebuild, iteration-conflict monitor, emulated parallel "
+            "runtime with yield injection",
+            "DESIGN.md 3.5, 4/C05, 9.4b",
             "schedules are sampled (omp and workqueue layers, 1-16 threads, affinity 16/2/1 cores), never enumerated"),
     "C11": ("point-location oracle applied to every depth sample of every pixel column; numpy's reduction of the "
             "column (NaN = missing) as value oracle; unit rule for sum/nansum; default depth resolution; schedule "
-            "sweep of the 3-D sampling kernel",
-            "DESIGN.md 3.4, 3.5, 4/C11",
+            "sweep and emulated parallel runtime of the 3-D sampling kernel",
+            "DESIGN.md 3.4, 3.5, 4/C11, 9.4b",
             "dz >= one pixel; pixels whose column contains a face sample are not judged"),
     "C16": ("membership model on physical quantities with decisive margin + exact 3-4-5 boundary cases; row tags; "
             "fingerprints of the input dataset; datasets hand-built and from the real loader",
@@ -74,8 +79,9 @@ CHECKS = {
             "trusted: pint's reduction of a unit to CGS base units, numpy arithmetic in longdouble; values within "
             "+-1e6; Quantity as left operand not decided"),
     "C06": ("history driver with row-tagged members and a numpy-indexing model; quiescent-point invariant "
-            "(shape, names, units) after every step",
-            "DESIGN.md 3.6, 4/C06",
+            "(shape, names, units) after every step; members shared between groups; icontract post-conditions on the "
+            "real Datagroup methods over the repository's own tests",
+            "DESIGN.md 3.6, 3.8, 4/C06",
             "trusted: numpy fancy indexing on arange(n) as the model of an index object; sort ties may go either way"),
     "C07": ("differential oracle on physical quantities with a decisive-margin rule (near-ties created by "
             "conversion rounding are not judged); logical operators against numpy",
@@ -96,8 +102,9 @@ CHECKS = {
             "the catalogue is fixed (functions whose unit rule the statement does not fix are outside); a plain "
             "number mixed into a unit-preserving function may raise or be read in the Array's unit"),
     "C17": ("history driver with an executable aliasing model (model entries per data object, references, "
-            "views, copies); np.shares_memory relations and object identity checked after every step",
-            "DESIGN.md 3.6, 4/C17",
+            "views, copies); np.shares_memory relations and object identity checked after every step; icontract "
+            "post-conditions (in-place identity, copy independence) over the repository's own tests",
+            "DESIGN.md 3.6, 3.8, 4/C17",
             "Vector in-place operators may return a new wrapper; integer targets: raise-unchanged or exact"),
     "C20": ("history driver mirrored on a Python dict (complete observable state compared after every step) "
             "+ content-equality model on generated and fixed Datagroup pairs",
